@@ -74,6 +74,8 @@ def exec_case(case):
                 meas = lambda x: float(np.dot(x, x))
             elif gen == "cylinder":
                 A, B = V(p["A"]), V(p["B"])
+                if p.get("den"):                              # a very short segment: B = A + (B - A) / den
+                    B = A + (B - A) / float(p["den"])
                 r = float(Fraction(*p["r"]))
                 m = P.cylinder(A, B, radius=r, N=p["N"], fill_caps=bool(p["caps"]))
                 ax = (B - A) / np.linalg.norm(B - A)
@@ -201,6 +203,9 @@ def _params(rng, thorough):
         A, B = rng.choice([([0, 0, 0], [0, 0, 2]), ([1, 2, 3], [1, 2, 7]), ([0, 0, 0], [3, 0, 0]), ([1, 0, 0], [1, 4, 3]),
                            ([0, 0, 0], [1, 1, 5]), ([2, 0, 1], [1, 0, -6]), ([0, 0, 0], [0, 1, 9])])      # the last three: nearly, not exactly, vertical
         add("cylinder", {"A": A, "B": B, "N": N, "caps": caps, "r": r, "want_m": sq(r)}, "caps" if caps else "open")
+    for (A, B), den, caps in itertools.product((([0, 0, 0], [1, 0, 0]), ([1, 2, 3], [1, 3, 3]), ([0, 0, 0], [0, 0, 1]), ([2, 0, 1], [3, 0, 1]), ([0, 0, 0], [1, 1, 0])),
+                                               (2000000, 500), (0, 1)):     # segments of length 5e-7 and 2e-3 along each axis, radius unchanged
+        add("cylinder", {"A": A, "B": B, "den": den, "N": 4, "caps": caps, "r": [1, 2], "want_m": [1, 4]}, ("caps" if caps else "open") + "/short_segment")
     for M_, m_, tri in itertools.product(res, res, (0, 1)):
         R, r = rng.choice([([1, 1], [1, 4]), ([2, 1], [1, 2]), ([3, 1], [1, 1])])
         add("torus", {"M": M_, "m": m_, "R": R, "r": r, "triangulate": tri, "want_m": sq(r)}, "equal" if M_ == m_ else "unequal")
